@@ -642,6 +642,9 @@ def x_close(spec, a, b):
         if o1[0].shape != o2[0].shape:
             return "different numbers of modes"
         tol = max(1e-6 + 4.0 * math.sqrt(max(0.0, 1.0 - o1[1])), 1e-6 + 4.0 * math.sqrt(max(0.0, 1.0 - o2[1])), 1e-4 if min(o1[1], o2[1]) < 1 - 1e-9 else 1e-7)
+        if any(c[0].startswith("Measure") for c in spec["cmds"]):
+            # a post-selected measurement renormalises the state: the trace no longer shows what the truncation lost
+            tol = max(tol, 3e-3)
         d = float(np.abs(o1[0] - o2[0]).max())
         if d > tol:
             return "density matrices differ by %.3g (tolerance %.1g)" % (d, tol)
@@ -1037,7 +1040,7 @@ def x_random(rng, backend):
         r = rng.random()
         if i == 0 and r < 0.15:
             s = rng.choice(["x", "y"])
-            free.setdefault(s, round(rng.uniform(0.1, 0.4), 3))
+            free.setdefault(s, round(rng.uniform(0.1, 0.4) * (0.3 if weak else 1.0), 3))
             return {"free": s, "k": rng.choice([1, 1, -1, 2])}
         if i == 0 and r < 0.25 and measured and name in ("Xgate", "Zgate", "Dgate", "Rgate", "Sgate"):
             return {"meas": rng.choice(measured), "k": rng.choice([1, -1, 0.5])}
@@ -1306,6 +1309,12 @@ def search_extended(ctx):
             if a[0] != b[0]:
                 for ctxname in ([rng.choice(CTXS)] if quick else CTXS[:3]):
                     x_judge(ctx, finish(x_wrap([a, b], False, ctxname, "gaussian"), "gaussian", rng.choice(["opt", "opt", "compile:gaussian"])), "x-cross/gaussian-transformations", a[0] + "+" + b[0])
+    # (every preparation / measurement / channel unit followed by itself)
+    for backend in ("gaussian", "fock", "bosonic"):
+        for u in x_units(backend):
+            if issubclass(getattr(ops, u[0]), (ops.Preparation, ops.Measurement)) or backend == "gaussian":
+                for ctxname in ([rng.choice(["plain", "rev"] if backend == "fock" else ["plain", "rev", "apart", "new", "high"])] if quick else CTXS):
+                    x_judge(ctx, finish(x_wrap([u, u], False, ctxname, backend), backend, "opt" if quick else None), "x-cross/%s-twice" % backend, u[0] + "+" + u[0])
     for backend, cnt in (("gaussian", ctx.budget(70, 900)), ("fock", ctx.budget(25, 400)), ("bosonic", ctx.budget(12, 200))):
         units = x_units(backend)
         for _ in range(cnt):
